@@ -36,10 +36,10 @@ type cfg struct {
 	Payload   int    `json:"payload"`
 	MaxPre    int    `json:"maxPre"`
 	Kids      bool   `json:"kids"`
-	Closer    bool   `json:"closer"`    // close the collection at a random moment (C16)
-	SlowLL    int    `json:"slowLL"`    // app lower level: milliseconds per update (0: mossStore / none)
-	FailLL    int    `json:"failLL"`    // app lower level: fail every n-th update
-	MaxDirty  int    `json:"maxDirty"`  // MaxDirtyOps
+	Closer    bool   `json:"closer"`   // close the collection at a random moment (C16)
+	SlowLL    int    `json:"slowLL"`   // app lower level: milliseconds per update (0: mossStore / none)
+	FailLL    int    `json:"failLL"`   // app lower level: fail every n-th update
+	MaxDirty  int    `json:"maxDirty"` // MaxDirtyOps
 	Compact   string `json:"compaction"`
 	Deferred  bool   `json:"deferredSort"`
 	Seed      int64  `json:"seed"`
